@@ -669,20 +669,40 @@ class VecExpr:
                 return (f"(PrimFloat.{op} {a} {b})", "f")
         if isinstance(n, ast.Constant) and isinstance(n.value, (int, float)) and not isinstance(n.value, bool):
             return (coq_float(float(n.value)) + "%float", "f")
-        if isinstance(n, ast.Compare) and len(n.ops) == 1 and isinstance(n.ops[0], (ast.NotEq, ast.Gt)):
+        if isinstance(n, ast.Attribute) and ast.unparse(n) == "np.inf":
+            return ("infinity", "f")
+        if isinstance(n, ast.UnaryOp) and isinstance(n.op, ast.USub):
+            a, ta = self.tr(n.operand)
+            if ta == "v":
+                return (f"(List.map PrimFloat.opp {a})", "v")
+        if isinstance(n, ast.Call) and ast.unparse(n.func) == "np.zeros_like" and len(n.args) == 1 and not n.keywords:
+            a, ta = self.tr(n.args[0])
+            if ta == "v":
+                return (f"(List.map (fun _ => 0%float) {a})", "v")
+        if isinstance(n, ast.Call) and ast.unparse(n.func) == "np.argsort" and len(n.args) == 1 and [(k.arg, ast.unparse(k.value)) for k in n.keywords] == [("kind", "'stable'")]:
+            a, ta = self.tr(n.args[0])
+            if ta == "v" and "argsort" in self.env:
+                return (f"({self.env['argsort'][0]} {a})", "iv")     # NumPy's stable argsort: the model's (validated bit for bit by 'fcauchy')
+        if isinstance(n, ast.Compare) and len(n.ops) == 1 and isinstance(n.ops[0], (ast.NotEq, ast.Gt, ast.Lt, ast.Eq)):
             (a, ta), (b, tb) = self.tr(n.left), self.tr(n.comparators[0])
             if ta == "v" and tb == "f":      # array compared with a scalar, element-wise
-                if isinstance(n.ops[0], ast.NotEq):
-                    return (f"(List.map (fun e_ => negb (PrimFloat.eqb e_ {b})) {a})", "bv")
-                return (f"(List.map (fun e_ => PrimFloat.ltb {b} e_) {a})", "bv")
+                t_ = type(n.ops[0])
+                body_ = {ast.NotEq: f"negb (PrimFloat.eqb e_ {b})", ast.Eq: f"PrimFloat.eqb e_ {b}", ast.Gt: f"PrimFloat.ltb {b} e_", ast.Lt: f"PrimFloat.ltb e_ {b}"}[t_]
+                return (f"(List.map (fun e_ => {body_}) {a})", "bv")
         if isinstance(n, ast.Subscript) and not isinstance(n.slice, (ast.Slice, ast.Tuple)):
             (a, ta), (i_, ti_) = self.tr(n.value), self.tr(n.slice)
             if ta == "v" and ti_ == "bv":
                 return (f"(bgather {i_} {a})", "v")     # boolean-mask indexing
+            if ta == "v" and ti_ == "iv":
+                return (f"(List.map (fun i_ => List.nth i_ {a} nan) {i_})", "v")     # integer-array (fancy) indexing
+            if ta == "iv" and ti_ == "bv":
+                return (f"(bgather_idx {i_} {a})", "iv")  # boolean-mask indexing of an index array
         if isinstance(n, ast.Call) and ast.unparse(n.func) == "np.where" and len(n.args) == 3 and not n.keywords:
             (c_, tc_), (a, ta), (b, tb) = [self.tr(x_) for x_ in n.args]
             if tc_ == "bv" and ta == tb == "v":
                 return (f"(bwhere {c_} {a} {b})", "v")
+            if tc_ == "bv" and ta == "f" and tb == "v":
+                return (f"(bwhere_s {c_} {a} {b})", "v")       # scalar broadcast in the first branch
         if isinstance(n, ast.Call) and ast.unparse(n.func) == "np.isfinite" and len(n.args) == 1 and not n.keywords:
             a, ta = self.tr(n.args[0])
             if ta == "v":
@@ -905,6 +925,44 @@ def gen_base():
     L.append("(* np.nanmin of an array without NaN: the minimum (Model/FloatVec.vmin); Python's min(a, b): pymin *)")
     L.append("Definition max_allowed_steplength (x d lb ub : vec) (cap : float) : float :=\n  " + " ".join(lets)
              + f" let fin_ := {fin_} in\n  match fin_ with [] => cap | _ => pymin cap (vmin fin_ cap) end.")
+    # cauchy.get_cauchy_point, its head: breakpoints t (with two masked assignments), direction d, ordered breakpoint indices
+    ct = ast.parse(_src("cauchy.py"))
+    fn = _func(ct, "get_cauchy_point")
+    env = {"x": ("x", "v"), "grad": ("grad", "v"), "lb": ("lb", "v"), "ub": ("ub", "v"), "argsort": ("FCauchy.argsort", "o")}
+    lets, got = [], {}
+    for st in fn.body:
+        tgt = st.targets[0] if isinstance(st, ast.Assign) and len(st.targets) == 1 else (st.target if isinstance(st, ast.AnnAssign) else None)
+        if tgt is None:
+            continue
+        if isinstance(tgt, ast.Name) and tgt.id in ("t", "mask", "d", "sorted_t_idx"):
+            t_, ty_ = VecExpr(env).tr(st.value)
+            k_ = len([1 for l_ in lets if l_.startswith("let " + tgt.id + "_")])
+            nm = f"{tgt.id}_{k_}"
+            lets.append(f"let {nm} := {t_} in")
+            env[tgt.id] = (nm, ty_)
+            got[tgt.id] = (nm, ty_)
+            if tgt.id == "sorted_t_idx" and k_ == 1:
+                break
+        elif isinstance(tgt, ast.Subscript) and isinstance(tgt.value, ast.Name) and tgt.value.id == "t":
+            (m_, tm_), (v_, tv_) = VecExpr(env).tr(tgt.slice), VecExpr(env).tr(st.value)
+            if tm_ != "bv" or tv_ not in ("v", "f"):
+                raise TranslateError("get_cauchy_point: unsupported masked assignment " + ast.unparse(st))
+            k_ = len([1 for l_ in lets if l_.startswith("let t_")])
+            nm = f"t_{k_}"
+            lets.append(f"let {nm} := ({'bscatter' if tv_ == 'v' else 'bset'} {m_} {v_} {env['t'][0]}) in")
+            env["t"] = (nm, "v")
+            got["t"] = (nm, "v")
+    if set(got) != {"t", "mask", "d", "sorted_t_idx"} or got["sorted_t_idx"][1] != "iv" or got["d"][1] != "v":
+        raise TranslateError("get_cauchy_point: head not recognised: " + str(sorted(got)))
+    L.append("From LBFGSB Require Model.FCauchy.")
+    L.append("Fixpoint bgather_idx (m : list bool) (v : list nat) : list nat :=\n  match m, v with b_ :: m', e_ :: v' => if b_ then e_ :: bgather_idx m' v' else bgather_idx m' v' | _, _ => [] end.")
+    L.append("Fixpoint bwhere_s (c : list bool) (a : float) (b : vec) : vec :=\n  match c, b with c_ :: c', q_ :: b' => (if c_ then a else q_) :: bwhere_s c' a b' | _, _ => [] end.")
+    L.append("(* t[mask] = values : the k-th True position of the mask receives the k-th value *)")
+    L.append("Fixpoint bscatter (m : list bool) (vals base : vec) : vec :=\n  match m, base with\n  | true :: m', _ :: base' => match vals with v_ :: vals' => v_ :: bscatter m' vals' base' | [] => base end\n"
+             "  | false :: m', e_ :: base' => e_ :: bscatter m' vals base'\n  | _, _ => base\n  end.")
+    L.append("Fixpoint bset (m : list bool) (a : float) (base : vec) : vec :=\n  match m, base with b_ :: m', e_ :: base' => (if b_ then a else e_) :: bset m' a base' | _, _ => base end.")
+    L.append("Definition cauchy_head (x grad lb ub : vec) : vec * vec * list nat :=\n  " + "\n  ".join(lets)
+             + f"\n  ({got['t'][0]}, {got['d'][0]}, {got['sorted_t_idx'][0]}).")
     # the call sites in main.py: is_boxed, the loop guard and the final test
     mt = ast.parse(_src("main.py"))
     mf = _func(mt, "minimize_lbfgsb")
